@@ -19,6 +19,7 @@ import Drand.Beacon.Cache
 import Drand.Chain.Stack
 import Gen.Consts
 import Gen.BeaconNode
+import Gen.CacheRules
 
 namespace Drand.Beacon
 open Drand Drand.Chain Drand.Store
@@ -127,7 +128,7 @@ structure Node where
 
 def Node.init (chained : Bool) (sigLen : Nat) (addr : String) (chainKey : Nat) (g : GroupView) (seed : Bytes) : Node :=
   { chained, sigLen, addr, chainKey, group := g, nextRound := 0, stack := Stack.init chained seed,
-    newPartials := [], storedQ := [], aggLast := none, cache := Cache.empty sigLen, waiters := [], streams := [],
+    newPartials := [], storedQ := [], aggLast := none, cache := Cache.empty sigLen Gen.replaceSameIndex, waiters := [], streams := [],
     puts := [], served := [], syncReqs := [], seen := [g] }
 
 /-- `h.chain.Last` / `store.Last` -/
